@@ -1368,3 +1368,50 @@ def early_exit_skips_traversal(repo, modules):
                             out.append((mn, q, lp, "the %s of `%s` are visited only when `%s.%s` is not empty (an earlier `return`): "
                                         "a scope without %s loses its %s" % (kind, owner, owner, x.attr, x.attr, kind)))
     return out, n
+
+
+def none_then_attribute(repo, modules):
+    """A local that holds an object is set to None under a condition (`if blk.name == "default": blk = None`) and an
+    attribute of it is read further down without a test of the variable: AttributeError on the paths that went
+    through the assignment."""
+    out, n = [], 0
+    for mn in modules:
+        m = repo.module(mn)
+        for q, fn in m.functions().items():
+            for a in ast.walk(fn):
+                if not (isinstance(a, ast.Assign) and len(a.targets) == 1 and isinstance(a.targets[0], ast.Name)
+                        and isinstance(a.value, ast.Constant) and a.value.value is None):
+                    continue
+                name = a.targets[0].id
+                conds = pyflow.dominating_tests(a, stop=fn)
+                if not conds:
+                    continue            # an initialisation, not a conditional clearing
+                # the variable held an object before: an earlier assignment from a call / attribute
+                earlier = [b for b in ast.walk(fn) if isinstance(b, ast.Assign) and any(pyflow.is_name(t, name) for t in b.targets)
+                           and b.lineno < a.lineno and not (isinstance(b.value, ast.Constant) and b.value.value is None)]
+                if not earlier:
+                    continue
+                n += 1
+                for x in ast.walk(fn):
+                    if not (isinstance(x, ast.Attribute) and pyflow.is_name(x.value, name) and x.lineno > a.end_lineno):
+                        continue
+                    # reassigned in between on the same level?
+                    again = [b for b in ast.walk(fn) if isinstance(b, ast.Assign) and any(pyflow.is_name(t, name) for t in b.targets)
+                             and a.lineno < b.lineno < x.lineno and not (isinstance(b.value, ast.Constant) and b.value.value is None)]
+                    if again:
+                        continue
+                    tests = [t for t, pol in pyflow.dominating_tests(x, stop=fn)] + [t for t, pol in pyflow.early_exit_guards(fn, x)]
+                    guarded = any(any(pyflow.is_name(y, name) for y in ast.walk(t)) for t in tests)
+                    # short-circuit: `blk and blk.name`
+                    par = getattr(x, "_parent", None)
+                    while par is not None and not isinstance(par, ast.stmt):
+                        if isinstance(par, ast.BoolOp) and any(pyflow.is_name(v, name) for v in par.values):
+                            guarded = True
+                        par = getattr(par, "_parent", None)
+                    # same branch as the clearing itself is fine only if after... (it is None there): not guarded
+                    if not guarded:
+                        out.append((mn, q, x, "`%s` is set to None at line %d (under `%s`) and `%s` is read here without a test of `%s`: "
+                                    "AttributeError on the inputs that take that branch"
+                                    % (name, a.lineno, ast.unparse(conds[0][0])[:50], ast.unparse(x), name)))
+                        break
+    return out, n
